@@ -12,6 +12,7 @@ open Lean HL HL.Ast
            `ws` (workspace mode) and `root`
     req    index of the requesting file
     docj   parser.Parse of the requesting document (real parser)
+    doct   the requesting document's text (positions are converted with its lines)
     wsres  the workspace's resolved journal as the real server holds it (null if none)
     wsroot the workspace's root journal path (with wsres)
     dpath  the requesting document's path
